@@ -234,17 +234,25 @@ def run(ctx: Ctx) -> None:
     # -- handshake error frame
     hs = noise.methods["_handle_handshake"]
     mp = [p for p in hs.param_names() if p != "self"][0]
-    eip = noise.methods["_error_on_incorrect_preamble"]
+    eip = noise.methods.get("_error_on_incorrect_preamble")
+    eip_inlined = eip is None  # a maintainer may have folded the error-frame handler into the handshake handler
+    if eip_inlined:
+        eip = hs
     ghs = cfg_of(ctx, hs)
     conds = [n for n in ghs.reachable() if n.kind == "cond" and norm(n.ast).replace(" ", "") in (f"{mp}[0]!=0", f"{mp}[0]==0")]
     ok = False
+    start_e: Node | None = None
     if len(conds) == 1:
         bad_label = "true" if "!=" in norm(conds[0].ast) else "false"
         tgt = [s for l, s in conds[0].succ if l == bad_label]
-        ok = bool(tgt) and any(eip in res.callees(hs, c).funcs for c in node_calls(tgt[0]))
+        if eip_inlined:
+            start_e = tgt[0] if tgt else None
+            ok = start_e is not None
+        else:
+            ok = bool(tgt) and any(eip in res.callees(hs, c).funcs for c in node_calls(tgt[0]))
         n_sites += 1
     ctx.ob("C04.R1", hs, "handshake status byte != 0 -> error-frame handler", ok, f"{[norm(c.ast) for c in conds]}")
-    ep = [p for p in eip.param_names() if p != "self"][0]
+    ep = mp if eip_inlined else [p for p in eip.param_names() if p != "self"][0]
     def cl_mac(n: Node):
         t = n.ast
         if isinstance(t, ast.Compare) and len(t.ops) == 1 and isinstance(t.ops[0], (ast.Eq, ast.NotEq)):
@@ -253,14 +261,14 @@ def run(ctx: Ctx) -> None:
                     return ("mac_failure", isinstance(t.ops[0], ast.Eq))
         return None
 
-    site(eip, "error frame 'Handshake MAC failure' -> invalid encryption key", cl_mac, {"mac_failure": True}, "InvalidEncryptionKeyAPIError")
-    site(eip, "other error frame -> handshake error", cl_mac, {"mac_failure": False}, "HandshakeAPIError")
+    site(eip, "error frame 'Handshake MAC failure' -> invalid encryption key", cl_mac, {"mac_failure": True}, "InvalidEncryptionKeyAPIError", start=start_e)
+    site(eip, "other error frame -> handshake error", cl_mac, {"mac_failure": False}, "HandshakeAPIError", start=start_e)
     expl = [n for n in own_nodes(eip.node) if isinstance(n, ast.Assign) and isinstance(n.value, ast.Call) and isinstance(n.value.func, ast.Attribute) and n.value.func.attr == "decode"]
     ctx.ob("C04.R1", eip, "explanation = error frame without its status byte", len(expl) == 1 and norm(expl[0].value) == f"{ep}[1:].decode()", f"{[norm(e.value) for e in expl]}")
     rep = [c for c in own_nodes(eip.node) if isinstance(c, ast.Call) and isinstance(c.func, ast.Attribute) and c.func.attr == "_handle_error_and_close"]
     geip = cfg_of(ctx, eip)
     rep_nodes_e = [n for n in geip.reachable() if any(c in rep for c in node_calls(n))]
-    ctx.ob("C04.R2", eip, "error frame is reported and the helper closed on every path", bool(rep_nodes_e) and geip.exit not in walk(geip, {}, lambda n: None, blocked=set(rep_nodes_e)), f"{len(rep)} report call(s)")
+    ctx.ob("C04.R2", eip, "error frame is reported and the helper closed on every path", bool(rep_nodes_e) and geip.exit not in walk(geip, {}, lambda n: None, start=start_e, blocked=set(rep_nodes_e)), f"{len(rep)} report call(s)")
     # -- _handle_error mapping
     he = noise.methods["_handle_error"]
     xp = [p for p in he.param_names() if p != "self"][0]
@@ -353,7 +361,15 @@ def run(ctx: Ctx) -> None:
     conv_in_caller = any(isinstance(t, ast.Try) and any(isinstance(c, ast.Call) and dk in res.callees(sp_, c).funcs for b in t.body for c in ast.walk(b)) and any(h.type is not None and norm(h.type) == "ValueError" for h in t.handlers) for t in own_nodes(sp_.node))
     has_own = any(test_text(dk, e) == "except ValueError" for e, b, s_, k, ctor in error_sites(ctx, dk))
     expect(sp_ if (conv_in_caller and not has_own) else dk, "key not base64 -> invalid encryption key", lambda t: t == "except ValueError", "InvalidEncryptionKeyAPIError")
-    expect(dk, "key not 32 bytes -> invalid encryption key", lambda t: t.replace(" ", "").startswith("len(") and t.replace(" ", "").endswith("!=32"), "InvalidEncryptionKeyAPIError")
+    def cl_len(n: Node):
+        t = n.ast
+        if isinstance(t, ast.Compare) and len(t.ops) == 1 and isinstance(t.ops[0], (ast.Eq, ast.NotEq)):
+            for a, b in ((t.left, t.comparators[0]), (t.comparators[0], t.left)):
+                if isinstance(a, ast.Call) and norm(a.func) == "len" and isinstance(b, ast.Constant) and b.value == 32:
+                    return ("len_ok", isinstance(t.ops[0], ast.Eq))
+        return None
+
+    site(dk, "key not 32 bytes -> invalid encryption key", cl_len, {"len_ok": False}, "InvalidEncryptionKeyAPIError", normal={"len_ok": True})
     dec = [c for c in own_nodes(dk.node) if isinstance(c, ast.Call) and norm(c.func) in ("binascii.a2b_base64", "base64.b64decode")]
     ctx.ob("C04.R1", dk, "the configured key is what gets decoded and returned", len(dec) == 1 and norm(inline(dk, dec[0].args[0])) == "self._noise_psk" and any(isinstance(n, ast.Return) and norm(inline(dk, n.value)) == norm(inline(dk, dec[0])) for n in own_nodes(dk.node)), "")
     ctx.count("C04.R1", n_sites, 13, "deviation sites")
@@ -473,6 +489,14 @@ def run(ctx: Ctx) -> None:
         f"consumed before dispatch on {fmt_path(witness) if witness else []}; authentication failures escaping the handlers: {esc}",
     )
 
+    # the error path cannot fail itself: mapping and reporting an error evaluates nothing that can raise (a dereference
+    # of state that only exists after the handshake, a lookup): otherwise the readiness wait is never failed and nothing
+    # is reported - the connect attempt ends in a timeout instead of the specific error
+    from ..totality import risky
+
+    for f_ in [noise.methods["_handle_error"], base.methods["_handle_error"], base.methods["_handle_error_and_close"], base.methods["_set_ready_future_exception"]]:
+        rk = risky(ctx, res, f_, f_.node.body)
+        ctx.ob("C04.R2", f_, f"reporting an error cannot raise by itself ({f_.name})", not rk, f"{rk[:3]}")
     # The plaintext helper has no closed state of its own: after a wrong marker was reported it stays fail-closed
     # because the rejected byte is still at the head of the buffer (every later read fails the marker test again).
     # So nothing on the report/close path may touch the receive buffer.
